@@ -2463,7 +2463,7 @@ def parallel_run(c, rebound, fmt, reps_specs, outdir):
                     nneut += 1
                     c.violation("serialising-alters-trajectory:" + sp["integ"],
                                 "a simulation (%s%s) that was copied and saved between two integrate() calls ends in different bits than its "
-                                "never-serialised twin (N constant): fields %s" % (sp["integ"], ", var " + sp["var"] if sp.get("var") else "", res_i[3][:6]),
+                                "never-serialised twin (same calls and edits; N not changed after the serialisation): fields %s" % (sp["integ"], ", var " + sp["var"] if sp.get("var") else "", res_i[3][:6]),
                                 dict(spec=sp, rep=rep, run=where, fields=res_i[3][:10]))
                     break
             if sp.get("row"):
